@@ -72,17 +72,48 @@ def _feed(h, o, nd, depth, seen):
         for k in sorted(o, key=repr):
             h.update(repr(k).encode())
             _feed(h, o[k], nd, depth + 1, seen)
-    elif hasattr(o, "__dict__") and not callable(o):
+    elif isinstance(o, np.random.RandomState):
+        h.update(b"RS")
+    elif _has_state(o) and not callable(o):
         if id(o) in seen:
             h.update(b"<cycle>")
             return
         seen = seen | {id(o)}
         h.update(b"O" + type(o).__name__.encode())
-        _feed(h, {k: v for k, v in vars(o).items()}, nd, depth + 1, seen)
-    elif isinstance(o, np.random.RandomState):
-        h.update(b"RS")
+        _feed(h, state_of(o), nd, depth + 1, seen)
     else:
         h.update(b"?" + type(o).__name__.encode())
+
+
+def state_of(o):
+    """instance state of an object as a dict, whether it keeps it in __dict__, in __slots__ or in
+    both (a drop-in for vars(o) that does not depend on that implementation choice); for modules and
+    classes it is vars(o)"""
+    import types
+    d = {}
+    if hasattr(o, "__dict__"):
+        d.update(vars(o))
+    if isinstance(o, (type, types.ModuleType)):
+        return d
+    for cls in type(o).__mro__:
+        slots = cls.__dict__.get("__slots__", ())
+        if isinstance(slots, str):
+            slots = (slots,)
+        for name in slots or ():
+            if name in ("__dict__", "__weakref__"):
+                continue
+            attr = name
+            if name.startswith("__") and not name.endswith("__"):
+                attr = "_%s%s" % (cls.__name__.lstrip("_"), name)
+            try:
+                d[name] = object.__getattribute__(o, attr)
+            except AttributeError:
+                pass
+    return d
+
+
+def _has_state(o):
+    return hasattr(o, "__dict__") or any("__slots__" in c.__dict__ for c in type(o).__mro__)
 
 
 def _r(x, nd):
